@@ -2696,6 +2696,12 @@ int KSI_ExtendResp_verifyWithRequest(const KSI_ExtendResp *resp, const KSI_Exten
 		goto cleanup;
 	}
 
+	if (resp->status == NULL) {
+		/* Without a status the conversion below yields KSI_OK and none of the following checks would be made. */
+		KSI_pushError(resp->ctx, res = KSI_INVALID_FORMAT, "Extend response is missing the status.");
+		goto cleanup;
+	}
+
 	if (!KSI_Integer_equalsUInt(resp->status, 0)) {
 		KSI_pushError(resp->ctx, res = KSI_convertExtenderStatusCode(resp->status), KSI_Utf8String_cstr(resp->errorMsg));
 		goto cleanup;
